@@ -20,11 +20,14 @@ import (
 	"fmt"
 	"time"
 
+	"github.com/olric-data/olric/internal/cluster/partitions"
+	"github.com/olric-data/olric/internal/discovery"
 	"github.com/olric-data/olric/internal/protocol"
 	"github.com/olric-data/olric/internal/resp"
 	"github.com/olric-data/olric/internal/util"
 	"github.com/olric-data/olric/internal/verifhook"
 	"github.com/olric-data/olric/pkg/storage"
+	"github.com/redis/go-redis/v9"
 )
 
 func (dm *DMap) loadCurrentAtomicInt(e *env) (int, int64, error) {
@@ -46,7 +49,40 @@ func (dm *DMap) loadCurrentAtomicInt(e *env) (int, int64, error) {
 	return int(nr), entry.TTL(), nil
 }
 
+// atomicOpOwner returns the partition owner of the key and reports whether it is this member.
+// The lock that serializes the atomic operations on a key is local to a member. So the
+// operation has to run on the partition owner, like every other write operation. Otherwise,
+// the callers on different members read the same value and overwrite each other's update.
+func (dm *DMap) atomicOpOwner(key string) (discovery.Member, bool) {
+	hkey := partitions.HKey(dm.name, key)
+	member := dm.s.primary.PartitionByHKey(hkey).Owner()
+	return member, member.CompareByName(dm.s.rt.This())
+}
+
 func (dm *DMap) atomicIncrDecr(cmd string, e *env, delta int) (int, error) {
+	if member, ok := dm.atomicOpOwner(e.key); !ok {
+		// Redirect to the partition owner.
+		var rcmd *redis.IntCmd
+		switch cmd {
+		case protocol.DMap.Incr:
+			rcmd = protocol.NewIncr(dm.name, e.key, delta).Command(dm.s.ctx)
+		case protocol.DMap.Decr:
+			rcmd = protocol.NewDecr(dm.name, e.key, delta).Command(dm.s.ctx)
+		default:
+			return 0, fmt.Errorf("invalid operation")
+		}
+		rc := dm.s.client.Get(member.String())
+		err := rc.Process(e.ctx, rcmd)
+		if err != nil {
+			return 0, protocol.ConvertError(err)
+		}
+		res, err := rcmd.Result()
+		if err != nil {
+			return 0, protocol.ConvertError(err)
+		}
+		return int(res), nil
+	}
+
 	atomicKey := e.dmap + e.key
 	dm.s.locker.Lock(atomicKey)
 	defer func() {
@@ -112,6 +148,27 @@ func (dm *DMap) Decr(ctx context.Context, key string, delta int) (int, error) {
 }
 
 func (dm *DMap) getPut(e *env) (storage.Entry, error) {
+	if member, ok := dm.atomicOpOwner(e.key); !ok {
+		// Redirect to the partition owner.
+		cmd := protocol.NewGetPut(dm.name, e.key, e.value).SetRaw().Command(dm.s.ctx)
+		rc := dm.s.client.Get(member.String())
+		err := rc.Process(e.ctx, cmd)
+		if errors.Is(err, redis.Nil) {
+			// There is no previous value.
+			return nil, nil
+		}
+		if err != nil {
+			return nil, protocol.ConvertError(err)
+		}
+		value, err := cmd.Bytes()
+		if err != nil {
+			return nil, protocol.ConvertError(err)
+		}
+		entry := dm.engine.NewEntry()
+		entry.Decode(value)
+		return entry, nil
+	}
+
 	atomicKey := e.dmap + e.key
 	dm.s.locker.Lock(atomicKey)
 	defer func() {
@@ -172,6 +229,21 @@ func (dm *DMap) GetPut(ctx context.Context, key string, value interface{}) (stor
 }
 
 func (dm *DMap) atomicIncrByFloat(e *env, delta float64) (float64, error) {
+	if member, ok := dm.atomicOpOwner(e.key); !ok {
+		// Redirect to the partition owner.
+		cmd := protocol.NewIncrByFloat(dm.name, e.key, delta).Command(dm.s.ctx)
+		rc := dm.s.client.Get(member.String())
+		err := rc.Process(e.ctx, cmd)
+		if err != nil {
+			return 0, protocol.ConvertError(err)
+		}
+		res, err := cmd.Result()
+		if err != nil {
+			return 0, protocol.ConvertError(err)
+		}
+		return res, nil
+	}
+
 	atomicKey := e.dmap + e.key
 	dm.s.locker.Lock(atomicKey)
 	defer func() {
